@@ -90,6 +90,28 @@ pub fn broken_variants(ctx: &CaseCtx, rng: &mut Rng) -> Vec<String> {
         }
     }
     const NAMES: [&str; 8] = ["mike", "alpha", "zulu", "bravo", "yankee", "kilo", "echo", "xray"];
+    // several parameters the schema does not define, on the entry edge and on the first nested edge
+    {
+        let mut q = ctx.g.query.clone();
+        let extra = |k: usize| (format!("{}_undefined", NAMES[k % 8]), trustfall_core::ir::FieldValue::Int64(k as i64));
+        for k in 0..5 {
+            q.entry_args.push(extra(k));
+        }
+        fn first_edge(s: &mut crate::qast::QScope) -> Option<&mut crate::qast::QEdge> {
+            for sel in s.sels.iter_mut() {
+                if let Sel::Edge(e) = sel {
+                    return Some(e);
+                }
+            }
+            None
+        }
+        if let Some(e) = first_edge(&mut q.root) {
+            for k in 3..8 {
+                e.args.push(extra(k));
+            }
+        }
+        out.push(q.render());
+    }
     for kind in 0..4 {
         let mut q = ctx.g.query.clone();
         let mut n = 0usize;
